@@ -1,27 +1,84 @@
 import Driver.GraphIO
-import EchoVerif.Model.Diff
+import Driver.C01
+import EchoVerif.Model.Patch
 
 namespace Driver.C04
-open EchoVerif EchoVerif.Graph Driver Driver.GraphIO
+open EchoVerif EchoVerif.Graph EchoVerif.Exec EchoVerif.Tick Driver Driver.GraphIO
+
+/-- `ok <state>` | `err <class> partial <state>`: the state left in the `&mut` target and the result. -/
+def resStr : WState × Option Err → String
+  | (c, none) => s!"ok {stateStr c}"
+  | (c, some e) => s!"err {errStr e} partial {stateStr c}"
+
+/-- digest of `WarpTickPatchV1::new(0, [0;32], Committed, [], [], ops)` as a pre-image expression -/
+def bareDigest (l : List Op) : String := (Patch.new 0 0 1 [] [] l).digest.render
 
 def pair : P String := do
   let a ← state
   let b ← state
   done
   let l := diffState a b
-  match applyOps a l with
-  | .ok c => pure s!"ops {opsStr l} ; ok {stateStr c}"
-  | .error e => pure s!"ops {opsStr l} ; err {errStr e}"
+  pure s!"ops {opsStr l} ; digest {bareDigest l} ; {resStr (applyInPlace a false l)}"
 
 def apply : P String := do
   let a ← state
   let l ← ops
   done
-  match applyOps a l with
-  | .ok c => pure s!"ok {stateStr c}"
-  | .error e => pure s!"err {errStr e}"
+  pure (resStr (applyInPlace a false l))
+
+/-- slot := `N w i` | `E w i` | `A <key>` | `P w <num>` -/
+def slot : P Slot := do
+  let t ← tok
+  match t with
+  | "N" => do let w ← id32; let i ← id32; pure (.node w i)
+  | "E" => do let w ← id32; let i ← id32; pure (.edge w i)
+  | "A" => do let k ← key; pure (.att k)
+  | "P" => do let w ← id32; let p ← num; pure (.port w p)
+  | x => throw s!"bad slot tag {x}"
+
+def slotStr : Slot → String
+  | .node w i => s!"N {id32Tok w} {id32Tok i}"
+  | .edge w i => s!"E {id32Tok w} {id32Tok i}"
+  | .att k => s!"A {keyStr k}"
+  | .port w p => s!"P {id32Tok w} {p}"
+
+def slotsStr (l : List Slot) : String :=
+  toString l.length ++ String.join (l.map (fun s => " " ++ slotStr s))
+
+/-- `C04.patch <policy> <rulepack> <status> <n in-slots…> <n out-slots…> <n ops…>` : `WarpTickPatchV1::new`. -/
+def patch : P String := do
+  let policy ← num
+  let rp ← id32
+  let status ← num
+  let ins ← counted slot
+  let outs ← counted slot
+  let l ← ops
+  done
+  if status != 1 && status != 2 then throw "bad status"
+  if policy ≥ 4294967296 then throw "policy out of range"
+  let p := Patch.new policy rp status ins outs l
+  pure s!"ops {opsStr p.ops} ; ins {slotsStr p.inSlots} ; outs {slotsStr p.outSlots} ; digest {p.digest.render}"
+
+/-- `C04.tick`: a C01 tick case; the emitted patch is replayed in place on the pre-state. -/
+def tickLine : P String := do
+  let pre ← state
+  let _rw ← id32
+  let _rn ← id32
+  let kind ← tok
+  let radix ← (match kind with
+    | "radix" => pure true
+    | "legacy" => pure false
+    | x => throw s!"bad scheduler kind {x}" : P Bool)
+  let _workers ← num
+  let cands ← counted Driver.C01.cand
+  done
+  let (_, res) := tick Driver.C01.tickCfg (Driver.C01.progOf pre) pre radix cands
+  match res with
+  | .error f => pure s!"tick {Driver.C01.failStr f}"
+  | .ok s =>
+    pure s!"tick ok ; patch {opsStr s.patch} ; digest {bareDigest s.patch} ; post {stateStr s.post} ; replay {resStr (applyInPlace pre false s.patch)}"
 
 def handlers : List (String × (List String → String)) :=
-  [("C04.pair", runP pair), ("C04.apply", runP apply)]
+  [("C04.pair", runP pair), ("C04.apply", runP apply), ("C04.patch", runP patch), ("C04.tick", runP tickLine)]
 
 end Driver.C04
